@@ -169,9 +169,25 @@ Definition naming_model (c : str * option str * str * option str * (option str *
                 return type(base)(case['cname'], (base,), {'Meta': type('Meta', (), meta), '__module__': mod})
             plain = make(Task, case['group'] if case['group'] else None)
             cfg = types.SimpleNamespace(namespace=case['ns'])
+            # task classes derived from a ModuleTask / DoubleModuleTask of another module: the group is that of the module the
+            # derived class lives in, whether or not the name of the parent class was asked for before
+            other = 'tcvnaming.elsewhere.child_mod'
+            for i in range(1, 4):
+                n = '.'.join(other.split('.')[:i])
+                if n not in sys.modules:
+                    sys.modules[n] = types.ModuleType(n)
+                    made.append(n)
+            derived = []
+            for base in (ModuleTask, DoubleModuleTask):
+                for ask_parent_first in (True, False):
+                    parent = make(base, None)
+                    if ask_parent_first:
+                        _ = parent.slugname
+                    child = type(parent)('Child', (parent,), {'Meta': type('Meta', (), {}), '__module__': other})
+                    derived.append(child.slugname)
             return dict(names=[plain.slugname, plain.fullname(cfg), make(ModuleTask, None).slugname,
                                make(DoubleModuleTask, case['mgroup']).slugname],
-                        module_task_with_group=make(ModuleTask, case['mgroup'] or 'own').slugname)
+                        module_task_with_group=make(ModuleTask, case['mgroup'] or 'own').slugname, derived=derived)
         finally:
             for n in made:
                 sys.modules.pop(n, None)
@@ -201,6 +217,9 @@ Definition naming_model (c : str * option str * str * option str * (option str *
                 want.append(f'{g}:{base}' if g else base)
         if obs['names'] != want:
             return f'{case}: the names are {obs["names"]}; the naming rule of release 1.4.0 gives {want}'
+        if obs.get('derived') != ['child_mod:child', 'child_mod:child', 'elsewhere:child_mod:child', 'elsewhere:child_mod:child']:
+            return (f'{case}: classes named Child derived from a ModuleTask / DoubleModuleTask and defined in module elsewhere.child_mod '
+                    f'(parent named first, child named first) are named {obs.get("derived")}; their groups come from their own module')
         if obs.get('module_task_with_group') != want[2]:
             return (f'{case}: a ModuleTask whose Meta sets task_group is named {obs.get("module_task_with_group")}; release 1.4.0 '
                     f'takes the group of a ModuleTask from its module: {want[2]}')
@@ -232,10 +251,15 @@ class BraceTexts(Suite):
     against that rule written out here."""
     name = 'brace_texts'
     model = ''
+    # mappings whose keys are numbers (a YAML mapping {5: .., 10: .., 100: ..}): the items are written in the order of the
+    # keys themselves, not of their texts
+    MAPPINGS = [{5: 0.1, 10: 0.25, 100: 0.5}, {100: 'c', 5: 'a', 10: 'b'}, {-1: 1, -10: 2, 3: 3}, {1.5: 'x', 10.0: 'y', 2: 'z'},
+                {True: 1, 0: 2}, {10: {2: 'a', 11: 'b'}}]
     STRINGS = ['\\d{4}', "it's {}", 'part_{}.json', '{X}/data', "{X}'s", '\\w{2,3}-{X}', 'plain', "it's", 'a\\b', '{', '}{', '{}', 'x{X}{Q}\n']
 
     def gen(self, rng, tier):
-        return [dict(value=v, gv=g, nest=n) for v in self.STRINGS for g in (None, {}, {'X': 'v'}, {'Z': 1}) for n in (False, True)]
+        return [dict(value=v, gv=g, nest=n) for v in self.STRINGS for g in (None, {}, {'X': 'v'}, {'Z': 1}) for n in (False, True)] + \
+               [dict(mapping=i, gv=None, nest=n) for i in range(len(self.MAPPINGS)) for n in (False, True)]
 
     def run_impl(self, case):
         import sys, types
@@ -248,6 +272,8 @@ class BraceTexts(Suite):
             sys.modules[name] = m
             try:
                 exec(compile(BRACE_SRC, name, 'exec'), m.__dict__)
+                if 'mapping' in case:
+                    case = dict(case, value=self.MAPPINGS[case['mapping']])
                 value = [case['value'], {'k': case['value']}] if case['nest'] else case['value']
                 cfg = Config(Path('data'), name='c', data={'tasks': [f'{name}.Abc'], 'p': value}, global_vars=case['gv'])
                 t = cfg.chain()['abc']
@@ -259,6 +285,16 @@ class BraceTexts(Suite):
         import re, hashlib
         if 'unexpected_exception' in obs:
             return f'unexpected exception {obs["unexpected_exception"]}: {obs["text"]}'
+        if 'mapping' in case:
+            def text(v):
+                if isinstance(v, dict):
+                    return '{' + ', '.join(f'{text(k)}: {text(x)}' for k, x in sorted(v.items())) + '}'
+                return f"'{v}'" if isinstance(v, str) else repr(v)
+            one = text(self.MAPPINGS[case['mapping']])
+            want = f"p=[{one}, {{'k': {one}}}]" if case['nest'] else f'p={one}'
+            if obs['text'] != want:
+                return f'{case}: the key text of the parameter is {obs["text"]!r}; by the scheme of the release it is {want!r}'
+            return None
         s = case['value']
         one = repr(s) if case['gv'] is not None and re.search(r'{(.*?)}', s) else f"'{s}'"
         want = f"p=[{one}, {{'k': {one}}}]" if case['nest'] else f'p={one}'
@@ -269,7 +305,7 @@ class BraceTexts(Suite):
         return None
 
     def nontrivial(self, case, obs):
-        return '{' in case['value']
+        return 'mapping' in case or '{' in case['value']
 
     def key(self, case):
         return repr(case)
